@@ -138,6 +138,27 @@ fn main() {
         },
     );
 
+    // many edges: hand-written searches tend to be right for 2^k and 2^k+1 edges only
+    let emax = rep.cfg.pick(70, 300);
+    rep.run_sub(
+        "many-edges",
+        &format!("strictly increasing edge lists of every size 2..={} (given in increasing, decreasing and interleaved order) x probes below, on and between all edges and above", emax),
+        (2..=emax).flat_map(|m| (0..3u8).map(move |order| (m, order))),
+        |c, lx| {
+            let (m, order) = *c;
+            lx.nontrivial(true);
+            lx.single(|lx| {
+                let sorted: Vec<i32> = (0..m as i32).map(|i| i * 2).collect();
+                let input: Vec<i32> = match order {
+                    0 => sorted.clone(),
+                    1 => sorted.iter().rev().cloned().collect(),
+                    _ => (0..m).map(|i| sorted[(i * 7 + 3) % m]).chain(sorted.iter().cloned()).collect(),
+                };
+                let probes: Vec<i32> = (-1..=2 * m as i32).collect();
+                check_edges("i32-many", input, &probes, lx)
+            });
+        },
+    );
     let gcases = (1..=3usize).flat_map(|d| sequences(d, GRID_SETS.len())).map(|a| GridCase { axes: a });
     rep.run_sub(
         "grid",
